@@ -41,6 +41,12 @@ def run(ctx):
         keep.append(r)
     ctx.findings = ctx.findings + common.load_findings("C04")      # convolutions outside C04's claimed class stay C04's findings
     c02.check_records(ctx, keep, classify=lambda case, r: c04.classify(case, r) if "conv" in case["tags"] else set())      # observation-only: same tensors as the oracle and as the unmapped compile
+    # the loops of the SPACETIME-mode program against the Lean model compilers (C01/C02 theorems; C03 for occupancy/flatten): the
+    # enumerate() wrappers and canvas statements are read through, so the displayed program is shown to compute the Einsum for all inputs
+    c02.check_model(ctx, [r for r in keep if r["ok"]], only_model_class=True)
+    c04.check_model(ctx, [r for r in keep if r["ok"] and r["gen"] == "g4"])
+    import c03
+    c03.check_model(ctx, [r for r in keep if r["ok"] and r["gen"].startswith("g3") and not c02.in_model_class(r["case"])])
     for r in keep:
         if not r["ok"]:
             continue
